@@ -2,7 +2,7 @@
 interleavings at operation granularity explored sequentially"""
 import os
 from vf.core import *
-ROOTS = ['vf_lg_init', 'vf_lg_run', 'vf_lg_send', 'vf_lg_enqueue', 'vf_lg_stop', 'vf_lg_stop_step1', 'vf_lg_stop_step2', 'vf_lg_stopping', 'vf_le_copy', 'vf_le_make', 'vf_le_level', 'vf_le_val', 'vf_le_empty', 'vf_le_size']
+ROOTS = ['vf_lg_init', 'vf_lg_run', 'vf_lg_send', 'vf_lg_enqueue', 'vf_lg_stop', 'vf_lg_stop_step1', 'vf_lg_stop_step2', 'vf_lg_stopping', 'vf_le_copy', 'vf_le_make', 'vf_le_level', 'vf_le_val', 'vf_le_empty', 'vf_le_exit', 'vf_le_size']
 FUN = ['FIX8::Logger::operator()()', 'FIX8::Logger::send', 'FIX8::Logger::enqueue', 'FIX8::Logger::stop', 'FIX8::Logger::is_loggable', 'FIX8::Logger::LogElement ctors (copy, (tid,str,level,fl,val))',
        'FIX8::f8_thread_cancellation_token::request_stop/operator!/stop_requested', 'FIX8::Tickval(bool)/copy']
 STUBS = ['ff_unbounded_queue<LogElement>::try_push := append (value, level, text-empty) of the element to an abstract FIFO, returns true; try_pop := scheduling point, then hand out the oldest element rebuilt by the real LogElement constructor; release := count (contract justified by C30)',
@@ -20,7 +20,7 @@ def log(ctx, name, nlines, stopmode, tier, defs, timeout=600):
     ctx.add(Harness(name, VERIF + '/harness/C28_log.c', defines=defs + ['NLINES=%d' % nlines, 'STOPMODE=%d' % stopmode, 'VF_MAXCOPY=2'], unwind=4,
                     unwindset=[LOOP + '.0:%d' % nb, 'sched.0:%d' % (nlines + 4), 'sched.1:%d' % (nlines + 4)] + ['main.%d:%d' % (i, nlines + 5) for i in range(5)] + ['vf_copy.0:4', 'x__ZNKSt7__cxx1112basic_stringIcSt11char_traitsIcESaIcEE16find_last_not_ofEPKcm.0:4'],
                     timeout=timeout, mem_gb=16, functions=FUN, stubs=STUBS, tier=tier,
-                    bounds='%d line(s) submitted through Logger::send by any producers (level enabled/disabled chosen by the solver), stop() %s, every interleaving of producer steps with the logger thread at operation granularity; line text symbolic: 1..2 characters over {a, CR, LF}' % (
+                    bounds='%d line(s) submitted through Logger::send by any producers (level enabled/disabled chosen by the solver), stop() %s, every interleaving of producer steps with the logger thread at operation granularity; line text symbolic: 0..2 characters over {a, CR, LF} (the empty line included)' % (
                         nlines, 'as one atomic call' if stopmode == 0 else 'as its two statements (request_stop; enqueue(marker)) with the logger thread schedulable in between'),
                     desc='every line accepted before stop reaches process_logline exactly once, in order, before the thread ends; submit result; disabled levels'))
 
@@ -50,5 +50,6 @@ def replay(ctx, cx, h=None):
     texts = []
     for i in range(1, n + 1):
         if i < len(tl) and int(tl[i]) in (1, 2): texts.append(('%02x' % (int(t0[i]) & 255)) + (('%02x' % (int(t1[i]) & 255)) if int(tl[i]) == 2 else ''))
+        elif i < len(tl): texts.append('-')          # the empty line
     r = sh([exe, str(n), want or 'any'] + texts, cwd=ctx.work)
     return r.returncode != 0, r.stdout.strip()[-500:].replace('\n', ' | ')
